@@ -110,6 +110,12 @@ func v128Check(content string) (fails []hlib.Failure) {
 			} else if cs.CheckSum() != res.Check {
 				fail("checksum", fmt.Sprintf("CheckSum()=%d, modulo-103 value is %d", cs.CheckSum(), res.Check))
 			}
+			// C14: the value is unchanged by scaling
+			if sc, serr := barcode.Scale(bc, 2*bd.Dx()+1, 5); serr != nil {
+				fail("checksum-scaled", "Scale failed: "+serr.Error())
+			} else if scs, ok2 := sc.(barcode.BarcodeIntCS); !ok2 || (ok && scs.CheckSum() != cs.CheckSum()) {
+				fail("checksum-scaled", "the scaled barcode reports a different CheckSum() or none")
+			}
 			if n := len(res.Values); n == 0 || res.Values[n-1] != res.Check {
 				fail("check-character", fmt.Sprintf("check character drawn does not have value %d: %v", res.Check, res.Values))
 			}
@@ -122,8 +128,9 @@ func v128Check(content string) (fails []hlib.Failure) {
 	return
 }
 
-func TestVerifC05(t *testing.T) {
-	r := hlib.New("C05")
+func v128Main(t *testing.T, id string, only ...string) {
+	r := hlib.New(id)
+	r.Only = only
 	defer r.Done(t)
 	rng := rand.New(rand.NewSource(r.Seed))
 	thorough := r.Tier == "thorough"
@@ -224,4 +231,14 @@ func TestVerifC05(t *testing.T) {
 		}
 	}
 	flush()
+}
+
+func TestVerifC05(t *testing.T) { v128Main(t, "C05") }
+
+// The same cases reported under the other properties they serve (only the named checks count).
+func TestVerifC10Code128(t *testing.T) {
+	v128Main(t, "C10", "panic", "result-shape", "rejects-representable", "accepts-unrepresentable")
+}
+func TestVerifC14Code128(t *testing.T) {
+	v128Main(t, "C14", "checksum", "check-character", "checksum-scaled")
 }
